@@ -64,7 +64,7 @@ PRELUDE = ("From Coq Require Import List NArith ZArith.\nImport ListNotations.\n
 
 def plan(ctx):
     if ctx.tier == "quick":
-        return [("flat", 30, 5, 4), ("flat", 3, 6, 4), ("hist", 22, 5, 4), ("full", 16, 5, 4)]
+        return [("flat", 24, 5, 4), ("flat", 1, 6, 4), ("hist", 18, 5, 4), ("full", 14, 5, 4)]
     return [("flat", 300, 5, 8), ("flat", 24, 6, 8), ("hist", 200, 5, 8), ("hist", 12, 6, 8), ("full", 160, 5, 8),
             ("full", 12, 6, 8), ("big", 1, 1100, 0)]
 
@@ -117,36 +117,55 @@ def perm_digest(c, p):
     return r_hash(fl)
 
 
+def is_all_perms(c):
+    import itertools
+    n = len(c["blobs"])
+    ps = c["perms"]
+    if n > 7 or len(ps) != [1, 1, 2, 6, 24, 120, 720, 5040][n]:
+        return False
+    return all(tuple(p["ord"]) == t for p, t in zip(ps, itertools.permutations(range(n))))
+
+
 def coq_case(c):
     blobs = "; ".join("(%d, %s)" % (o["c"], M.coq_obj(o)) for o in c["blobs"])
-    perms = "; ".join("mkPerm [%s]%%nat %s %d" % ("; ".join(str(i) for i in p["ord"]), vlib.coq_bool(p["ok"]), perm_digest(c, p))
-                      for p in c["perms"])
-    return "(mkCase %d %d [%s] [%s])" % (c["e"], c["q"], blobs, perms)
+    if is_all_perms(c):
+        spec = "PAll"
+    else:
+        spec = "(PList [%s])" % "; ".join("[%s]%%nat" % "; ".join(str(i) for i in p["ord"]) for p in c["perms"])
+    return "(mkCase %d %d [%s] %s)" % (c["e"], c["q"], blobs, spec)
 
 
 def evaluate(ctx, cases):
     """-> dict model/ref/gc -> set((case, perm)), classes list; None on failure"""
     # balance chunks by number of orders
     order = sorted(range(len(cases)), key=lambda i: -len(cases[i]["perms"]))
-    nch = min(vlib.NCPU, max(1, len(cases)))
+    nch = min(8 if ctx.tier == "quick" else vlib.NCPU, max(1, len(cases)))   # every coqc pays the library load
     chunks = [[] for _ in range(nch)]
     load = [0] * nch
     for i in order:
         k = load.index(min(load))
         chunks[k].append(i)
         load[k] += len(cases[i]["perms"]) + 5
+    chunks = [ch for ch in chunks if ch]
     jobs = []
     for ch in chunks:
         text = PRELUDE + "".join("Definition k%d : case := %s.\n" % (j, coq_case(cases[i])) for j, i in enumerate(ch))
         text += "Definition cases : list case := [%s].\n" % "; ".join("k%d" % j for j in range(len(ch)))
-        jobs.append(("c18", text, {"model": "model_mismatches cases", "ref": "ref_mismatches cases", "gc": "gc_mismatches cases",
+        jobs.append(("c18", text, {"dig": "model_digests cases", "ref": "ref_mismatches cases", "gc": "gc_mismatches cases",
                                    "cls": "case_classes cases"}))
     out = {"model": set(), "ref": set(), "gc": set()}
     classes = [None] * len(cases)
     for ch, res in zip(chunks, ctx.coq_eval_many(jobs)):
         if res is None:
             return None, None
-        for k in ("model", "ref", "gc"):
+        want = [(i, j, perm_digest(cases[i], p) * 2 + (1 if p["ok"] else 0)) for i in ch for j, p in enumerate(cases[i]["perms"])]
+        if len(want) != len(res["dig"]):
+            ctx.notes.append("model returned %d digests for %d orders" % (len(res["dig"]), len(want)))
+            return None, None
+        for (i, j, w), d in zip(want, res["dig"]):
+            if w != d:
+                out["model"].add((i, j))
+        for k in ("ref", "gc"):
             for code in res[k]:
                 out[k].add((ch[code // 100000], code % 100000))
         for j, cl in enumerate(res["cls"]):
